@@ -15,12 +15,22 @@ if [ ! -x "$DRV" ] || [ "$HERE/driver/src/main.rs" -nt "$DRV" ]; then
     || { echo "CHECK-ERROR driver build failed (see .cache/driver-build.log)"; exit 2; }
 fi
 SYSROOT="$(rustc +nightly --print sysroot)"
-TDIR="${RULER_FACTS_TARGET:-$VERIF/.cache/target-$CRATE}"
+# one extraction at a time per target directory (concurrent runs in one directory would delete
+# each other's fingerprints or be served from cargo's freshness cache without running the
+# driver); a few directories ("slots") let independent trees be extracted side by side
+TBASE="${RULER_FACTS_TARGET:-$VERIF/.cache/target-$CRATE}"
+mkdir -p "$VERIF/.cache"
+TDIR=""
+for S in "" -s1 -s2 -s3; do
+  exec 9>"$VERIF/.cache/extract$S.lock"
+  if flock -n 9; then TDIR="$TBASE$S"; break; fi
+done
+if [ -z "$TDIR" ]; then
+  exec 9>"$VERIF/.cache/extract.lock"
+  flock 9
+  TDIR="$TBASE"
+fi
 mkdir -p "$TDIR"
-# one extraction at a time (shared target directory; concurrent runs would delete each
-# other's fingerprints or be served from cargo's freshness cache without running the driver)
-exec 9>"$VERIF/.cache/extract.lock"
-flock 9
 # cargo's freshness cache would skip the wrapper: forget the crate's fingerprints
 rm -rf "$TDIR"/debug/.fingerprint/"$CRATE"-* 2>/dev/null
 rm -f "$OUT.json" "$OUT.test.json"
